@@ -123,6 +123,14 @@ class FnContract:
                 bound[n] = res[0][1]
             else:
                 bound[n] = eng.from_const(d.value, st)
+        if a.kwarg is not None:
+            # **contextkw: the mapping passed with ** at the call site, or an empty one (a fresh container without entries)
+            kw = kws.get('**')
+            if kw is None:
+                if eng.models.interface is None:
+                    raise OutOfReach('**%s without an interface' % a.kwarg.arg)
+                (st2, kw), = eng.models.interface.new_container(eng, [], {}, st)
+            bound[a.kwarg.arg] = kw
         return bound
 
     def cases_for(self, pre):
@@ -209,6 +217,7 @@ class FnContract:
                 for cl in case.ensures(pre2, post):
                     s2.assume(cl[1])
                 if not s2.infeasible():
+                    s2.ghost['calls'] = s2.ghost.get('calls', ()) + ((self.qual, bound, res),)
                     out.append((s2, res))
             else:
                 names = case.exc
@@ -226,6 +235,7 @@ class FnContract:
                 for cl in case.ensures(pre2, post):
                     s2.assume(cl[1])
                 if not s2.infeasible():
+                    s2.ghost['calls'] = s2.ghost.get('calls', ()) + ((self.qual, bound, None),)
                     out.append((s2, Raised(ex)))
         return out
 
